@@ -60,6 +60,34 @@ Section C01.
     a_mp_withdrawals b u = Ok (Some (fam, Some (map Ok l))).
   Proof. intros; eapply (c01_mp_unreach_proof cfg c W Nl); eassumption. Qed.
 
+  (* the next hop of the MP_REACH_NLRI attribute, in every form NextHop::parse admits for the family (one or two IPv6 addresses,
+     RD + address for the VPN families, IPv4 or IPv6 for the labelled ones, none for FlowSpec) *)
+  Theorem c01_mp_next_hop : forall a fam k nhv enc,
+    find (fun s => as_code s =? 14) (c_attrs c) = Some a ->
+    fst fam < 65536 -> snd fam < 256 -> fam_of fam = Some k -> nh_fits k nhv = true ->
+    as_value a = mp_reach_value fam (nh_octets nhv) enc ->
+    a_mp_next_hop b u = Ok (Some (fam, nhv)).
+  Proof. intros; eapply (c01_mp_next_hop_proof cfg c W Nl); eassumption. Qed.
+
+  (* find_next_hop(family): that next hop for the family of the attribute, an error for another family - except IPv4 unicast,
+     which falls back to the NEXT_HOP attribute; without MP_REACH_NLRI only IPv4 unicast has a next hop, the NEXT_HOP attribute *)
+  Theorem c01_find_next_hop : forall a fam k nhv enc,
+    find (fun s => as_code s =? 14) (c_attrs c) = Some a ->
+    fst fam < 65536 -> snd fam < 256 -> fam_of fam = Some k -> nh_fits k nhv = true ->
+    as_value a = mp_reach_value fam (nh_octets nhv) enc ->
+    a_find_next_hop b u fam = Ok (FMp nhv) /\
+    (forall probe, fam_eq fam probe = false -> fam_eq probe (1, 1) = false -> a_find_next_hop b u probe = Err) /\
+    (fam_eq fam (1, 1) = false ->
+     a_find_next_hop b u (1, 1) = match a_conventional_next_hop b u with Ok (Some x) => Ok (FConv x) | Panic => Panic | _ => Err end).
+  Proof. intros; eapply (c01_find_next_hop_proof cfg c W Nl); eassumption. Qed.
+
+  Theorem c01_find_next_hop_conventional :
+    find (fun s => as_code s =? 14) (c_attrs c) = None ->
+    a_mp_next_hop b u = Ok None /\
+    a_find_next_hop b u (1, 1) = match a_conventional_next_hop b u with Ok (Some x) => Ok (FConv x) | Panic => Panic | _ => Err end /\
+    (forall probe, fam_eq probe (1, 1) = false -> a_find_next_hop b u probe = Err).
+  Proof. intros; eapply (c01_find_next_hop_conventional_proof cfg c W Nl); eassumption. Qed.
+
   (* End-of-RIB: recognised for exactly the family it denotes ... *)
   Theorem c01_eor_ipv4 : c_wd c = [] -> c_attrs c = [] -> c_ann c = [] -> a_is_eor b u = Some (1, 1).
   Proof. intros; eapply (c01_eor_conventional_proof cfg c W Nl); eassumption. Qed.
@@ -80,6 +108,9 @@ Print Assumptions c01_path_attributes.
 Print Assumptions c01_conventional_nlri.
 Print Assumptions c01_mp_reach.
 Print Assumptions c01_mp_unreach.
+Print Assumptions c01_mp_next_hop.
+Print Assumptions c01_find_next_hop.
+Print Assumptions c01_find_next_hop_conventional.
 Print Assumptions c01_eor_ipv4.
 Print Assumptions c01_eor_mp.
 Print Assumptions c01_not_eor_with_nlri.
